@@ -469,6 +469,22 @@ func runC16(c *eng.Ctx) {
 			}
 			ok = loopNoEarlyExit(g, el.Stmt) && loopBodyMustPass(g, el.Stmt, writesElem) && loopBodyMustPass(g, el.Stmt, writesSep)
 		}
+		// the hash state belongs to the call: HashLabelValues is called under the lock of one collector, and collectors
+		// of different metric names are used concurrently, so anything kept at package level is shared without a lock
+		var pkgVar *ast.Ident
+		ast.Inspect(f.Decl.Body, func(n ast.Node) bool {
+			if id, isId := n.(*ast.Ident); isId {
+				if v, isV := info.Uses[id].(*types.Var); isV && !v.IsField() && v.Pkg() != nil && v.Parent() == v.Pkg().Scope() {
+					pkgVar = id
+				}
+			}
+			return true
+		})
+		if pkgVar != nil {
+			r8.Bad(f.Key+" call-local state", pkgVar.Pos(), "HashLabelValues works on the package-level variable `"+pkgVar.Name+"`: collectors of different metrics hash at the same time under different locks, the hashes get mixed and one series is stored under two keys")
+		} else {
+			r8.Ok(f.Key+" call-local state", f.Decl.Pos(), "no package-level variable is used")
+		}
 		r8.Check(ok, f.Key, f.Decl.Pos(), "value and separator hashed for every label", "some label values (or their separators) can be left out of the hash: label vectors that differ only in which label carries a value collide, two distinct series of one batch are merged into one")
 	}
 
